@@ -38,7 +38,7 @@ def run_one(pid, mut, scratch, verbose):
         if r.returncode != 0:
             subprocess.run(["patch", "-p1", "-s", "-R", "-f", "-d", scratch, "-i", pf], capture_output=True, text=True)
             return "BROKEN", "patch does not apply: %s" % (r.stdout + r.stderr)[-200:]
-        edits = []
+        edits = mut.get("edits") or []      # (textual edits on top of the patch)
     else:
         edits = mut.get("edits") or [{"file": mut["file"], "old": mut["old"], "new": mut["new"]}]
     try:
